@@ -19,7 +19,7 @@ BOUNDS = ('rounding-erased semantics: every matrix entry an unconstrained real, 
           'isIdentity: all non-NaN floats (bit-precise); isNull: all reals')
 OUTSIDE = ('the condition-number-proportional rounding bound for general well-conditioned matrices (a numerical-analysis claim; only the rounding-erased identities and the exact unimodular clause are decided); '
            'qr/rq for 3x3 and 4x4: the last Gram-Schmidt pivot != 0 does not finish in nlsat, so the goals that divide by it (last column of Q) are not attempted; the remaining 3x3/4x4 goals are optional; '
-           'sign of zero in the exact clause (== does not distinguish +0 and -0); isNormalized/isOrthogonal; SIMD (aligned) inverse variants (C03)')
+           'sign of zero in the exact clause (== does not distinguish +0 and -0); gtx isNormalized/isOrthogonal (their real-mode equivalences with several square roots do not finish in nlsat); SIMD (aligned) inverse variants (C03)')
 ASSUMPTIONS = ['rounding-erased (exact real) semantics for obligations named *.real; sqrt(x) is the unique y >= 0 with y*y = x',
                'exact clause: IEEE-754 correct rounding returns an exactly representable result exactly (instances proved in C02 ieee_lemma_*; x / (+-1) and 1 / (+-1) are exact by the same rule); '
                'sums, differences and products of integers are integers (the induction over the term is carried out outside the solver, each step lemma inside)']
@@ -252,11 +252,17 @@ def check_real(S, U, fn, spec, pre, name, bounds, mutant=None, known=(), timeout
     proven = set(); facts = []
     def hyps(): return P + [a for a, ds in axs if ds <= proven] + facts
     sp = (spec, None)
+    blocked = False
     for n_, k in enumerate(order):
         d = _DV[k]
+        if blocked:          # later divisors are defined through the unproved one (execution order): without its axioms a query would be meaningless
+            S.rec(name='%s.divisor!=0[%d]' % (name, n_), kind='domain', functions=fnlist, bounds=binfo, solver='-', result='unknown', time_s=0.0, status='inconclusive', mandatory=mandatory, note='an earlier divisor was not proved non-zero')
+            if mandatory: S.inconclusive.append('%s.divisor!=0[%d] [an earlier divisor was not proved non-zero]' % (name, n_))
+            continue
         r, _m = S.prove('%s.divisor!=0[%d]' % (name, n_), d != 0, hyps(), timeout=timeout, solver=solver, kind='domain', functions=fnlist, vars_=allvars, mandatory=mandatory,
                         bounds=binfo + '; divisor ' + d.sexpr()[:80].replace('\n', ' '), replay=S._replayer(res, None, pre, U, fn, 'real', name + '.divisor'))
         if r == 'unsat': proven.add(k); facts.append(d != 0)
+        else: blocked = True
     H = hyps()
     # (2) executor obligations
     groups = {}; nsq = 0
